@@ -111,8 +111,14 @@ def valid_extensions(w, st, depth):
 def check_plan(r, w, plan, final, tags):
     from pddl_plus_parser.multi_agent import PlanConverter
     lines = ["(" + " ".join(s) + ")" for s in plan]
-    for layout, text in (("bare", "\n".join(lines) + "\n"),
-                         ("numbered", "\n".join(f"{i}: {l.upper()}" for i, l in enumerate(lines)) + "\n")):
+    pairs_per_line = [" ".join(lines[i:i + 2]) for i in range(0, len(lines), 2)]
+    layouts = [("bare", "\n".join(lines) + "\n"),
+               ("numbered", "\n".join(f"{i}: {l.upper()}" for i, l in enumerate(lines)) + "\n")]
+    if len(lines) >= 2:
+        # the plan is the sequence of action calls of the file, however they are spread over lines
+        layouts += [("two-per-line", "\n".join(pairs_per_line) + "\n"), ("one-line", " ".join(lines)),
+                    ("wrapped", "\n".join(l.replace(" ", "\n  ", 1) for l in lines) + "\n")]
+    for layout, text in layouts:
         path = write_tmp(text, ".plan")
         for constraint in (True, False):
             prob = parse_problem(w.ptext, w.D)
